@@ -267,6 +267,10 @@ def typed_calls(rng: random.Random, full: bool) -> Iterator[Tuple[str, str, List
         yield 'unbound', 'users.create', p
     for p in ([{'name': 'ann'}], [{'qty': 2}], ['x'], [], [{'sku': 1}, 2]):
         yield 'unbound', 'orders.create', p
+    for m in ('pd_d_int', 'pd_d_bool', 'pd_d_float'):
+        for p in ([], {}, ['given'], {'x': None}):
+            yield 'defaults-that-compare-equal-across-methods', m, p
+        yield 'unbound', m, {'y': 1}
     for kind in KEYED_KINDS:
         yield 'mapping-with-non-string-keys', 'keyed', [kind]
         yield 'mapping-with-non-string-keys', 'keyed', {'kind': kind, 'how': 'error'}
